@@ -47,7 +47,7 @@ pub proof fn lemma_filter_map_pointwise<A, B>(s1: Seq<A>, s2: Seq<A>, p1: spec_f
 /// the conjunction of the property text, on one item of the UNPRUNED walk: an entry (not an error) such that no
 /// directory on the way from the root down to it (the root itself excepted) has an ignored name, no component of its
 /// path below the root is an ignored name, no exclude pattern matches its path relative to the root, and its file
-/// name is conftest.py / test_*.py / *_test.py
+/// name is conftest.py / test_*.py / *_test.py, and it is a regular file (or a link to one)
 pub open spec fn indexed(root: PV, pats: Seq<Seq<char>>, it: WalkItem) -> bool {
     match it {
         Err(_) => false,
@@ -57,6 +57,7 @@ pub open spec fn indexed(root: PV, pats: Seq<Seq<char>>, it: WalkItem) -> bool {
             &&& !has_skip_component(below_root(root, entry_path(e)))
             &&& !excluded(root, pats, entry_path(e))
             &&& match file_name_v(entry_path(e)) { Some(n) => is_pytest_file_name(n), None => false }
+            &&& fs_is_file(entry_path(e))
         }
     }
 }
@@ -169,6 +170,7 @@ pub open spec fn corr_chain(a1: Seq<DirEntry>, a2: Seq<DirEntry>) -> bool {
 pub open spec fn corr_entry(r1: PV, r2: PV, e1: DirEntry, e2: DirEntry) -> bool {
     &&& pv_is_prefix(r1, entry_path(e1)) && pv_is_prefix(r2, entry_path(e2))
     &&& entry_path(e1).skip(r1.len() as int) == entry_path(e2).skip(r2.len() as int)
+    &&& fs_is_file(entry_path(e1)) == fs_is_file(entry_path(e2))
     &&& corr_flat(e1, e2)
     &&& corr_chain(entry_ancestors(e1), entry_ancestors(e2))
 }
